@@ -72,7 +72,7 @@ def parse (fin : Bool) (tid : Tid) (ts : List String) : Bool × Option (Option E
   | _ => (fin, none)
 
 def pcName : Pc → String
-  | .idle => "idle" | .rdA _ => "rdA" | .rdH _ none => "rdH" | .rdH _ (some _) => "rdH+" | .rdD _ _ => "rdD"
+  | .idle => "idle" | .rdA _ => "rdA" | .rdH _ none => "rdH" | .rdH _ (some _) => "rdH+" | .rdP _ _ => "rdP" | .rdD _ _ => "rdD"
   | .lkCalled => "lkCalled" | .lkA => "lkA" | .lkH none => "lkH" | .lkH (some _) => "lkH+" | .lkC _ => "lkC"
   | .lkD _ => "lkD" | .lkT => "lkT" | .lkTD => "lkTD" | .lkExc => "lkExc" | .wHold _ => "wHold"
   | .relA _ => "relA" | .relB _ false => "relB0" | .relB _ true => "relB"
@@ -122,7 +122,7 @@ def edges : List String :=
    "lkT/dec-L", "lkT/dec-R", "lkTD/ounlock", "rdA:rdCL/inc-L", "rdA:rdCL/inc-R", "rdA:rdCalled/ldCL-L",
    "rdA:rdCalled/ldCL-R", "rdA:rdInc/ldRL-cntL-sideL", "rdA:rdInc/ldRL-cntL-sideR", "rdA:rdInc/ldRL-cntR-sideL",
    "rdA:rdInc/ldRL-cntR-sideR", "rdD/ret-lockShared0", "rdD/ret-lockShared1", "rdD/ret-lockShared2",
-   "rdD/ret-lockShared3", "rdH+/dec-L", "rdH+/dec-R", "rdH+/ldCtl-L", "rdH+/ldCtl-R", "rdH/ldPtr-L", "rdH/ldPtr-R",
+   "rdD/ret-lockShared3", "rdP/dec-L", "rdP/dec-R", "rdH+/ldCtl-L", "rdH+/ldCtl-R", "rdH/ldPtr-L", "rdH/ldPtr-R",
    "relA/ldCtl-L", "relA/ldCtl-R", "relA/stCtl-L", "relA/stCtl-R", "relA/stPtr-L", "relA/stPtr-R", "relA:w/ldRL",
    "relA:wCalled/lock-rlL", "relA:wCalled/lock-rlR", "relB/ldCtl-L", "relB/ldCtl-R", "relB/pdt", "relB/stCtl-L",
    "relB/stCtl-L-dead", "relB/stCtl-R", "relB/stCtl-R-dead", "relB/stPtr-L", "relB/stPtr-R", "relB0:wF1d/stRL",
